@@ -295,11 +295,13 @@ def feq (a b : K) : Bool := ScalarO.le a b && ScalarO.le b a
 /-- `fastabs`, line 76: `(x > 0.) ? x : -x` -/
 def fastabs (x : K) : K := if ScalarO.lt Scalar.zero x then x else Scalar.neg x
 
-/-- `while(abs(z)>thr){ z = z/div; n++; }` with fuel; `none` = fuel exhausted -/
-def halve (abs : K → K) (thr div : K) : Nat → K → Nat → Option (K × Nat)
+/-- `while(abs(z)>thr && fin(z)){ z = z/div; n++; }` with fuel; `none` = fuel exhausted.
+    `fin` is `fun _ => true` for the loop as it stands in the pinned source and `isfinite`
+    when the source carries the guard proposed for finding F14 (RV.Gen.C03.haltGuardCs3). -/
+def halve (abs : K → K) (thr div : K) (fin : K → Bool) : Nat → K → Nat → Option (K × Nat)
   | 0, _, _ => none
   | fuel+1, z, n =>
-    if ScalarO.lt thr (abs z) then halve abs thr div fuel (z / div) (n+1) else some (z, n)
+    if ScalarO.lt thr (abs z) && fin z then halve abs thr div fin fuel (z / div) (n+1) else some (z, n)
 
 end order
 
@@ -322,13 +324,13 @@ def div6 : K := lit divCs6.1 divCs6.2
 
 /-- stumpff_cs3; also returns the number of halvings -/
 def stumpffCs3 (z : K) : Except Hang (Cs3 K × Nat) :=
-  match halve ScalarT.fabs (thr3 : K) div3 fuelHalve z 0 with
+  match halve ScalarT.fabs (thr3 : K) div3 (if haltGuardCs3 then ScalarT.isFinite else fun _ => true) fuelHalve z 0 with
   | none => .error .stumpff
   | some (z', n) => .ok (cs3Dup n (cs3Series z'), n)
 
 /-- stumpff_cs (uses `fastabs`) -/
 def stumpffCs6 (z : K) : Except Hang (Cs6 K) :=
-  match halve fastabs (thr6 : K) div6 fuelHalve z 0 with
+  match halve fastabs (thr6 : K) div6 (if haltGuardCs6 then ScalarT.isFinite else fun _ => true) fuelHalve z 0 with
   | none => .error .stumpff
   | some (z', n) => .ok (cs6Finish (cs6Dup n (cs6Series z')))
 
@@ -398,8 +400,12 @@ def bisectLoop (c : Ctx K) : Nat → K → K → K → Nat → Nat → Except Ha
     let (gs, nh) ← stiefelGs3 c.beta X
     let mh := max mh nh
     let s := c.r0 * X + c.eta0 * gs.c2 + c.zeta0 * gs.c3 - c.dt
-    let Xmax := if ScalarO.le Scalar.zero s then X else Xmax
-    let Xmin := if ScalarO.le Scalar.zero s then Xmin else X
+    -- `if (s>=0.)`, or `if (isfinite(s) ? (s>=0.) : (_dt>0.))` when the source has the F14 fix
+    let up := if bisectOverflowAware then
+                (if ScalarT.isFinite s then ScalarO.le Scalar.zero s else ScalarO.lt Scalar.zero c.dt)
+              else ScalarO.le Scalar.zero s
+    let Xmax := if up then X else Xmax
+    let Xmin := if up then Xmin else X
     let X' := (Xmax + Xmin) / n2
     if ScalarO.lt (fastabs ((Xmax + Xmin) * lit 1 1000000000000000)) (fastabs (Xmax - Xmin))
     then bisectLoop c fuel X' Xmin Xmax (it+1) mh
